@@ -20,6 +20,7 @@ class Gen:
     def __init__(self, rng):
         self.rng = rng
         self.next_t = 0
+        self.force_clip = set()
 
     def fresh(self):
         t = self.next_t
@@ -33,7 +34,8 @@ class Gen:
         lo = a + 1 if mandatory else 0
         if lo >= n:
             return None
-        return ('n', self.rng.randrange(lo, n), self.rng.random() < 0.15)
+        b = self.rng.randrange(lo, n)
+        return ('n', b, b in self.force_clip or self.rng.random() < 0.15)
 
     def body(self, n, a=0, mandatory=False):
         b = [self.fresh()]
@@ -48,6 +50,8 @@ class Gen:
     def grammar(self):
         rng = self.rng
         n = rng.randint(1, 3)
+        # every third grammar: one non-terminal is clipped at every reference (and may then carry a %nt_type)
+        self.force_clip = {rng.randrange(1, n)} if n > 1 and rng.random() < 0.4 else set()
         prods = []
         for a in range(n):
             alts = []
@@ -74,7 +78,9 @@ class Gen:
                 alt.append(self.fresh())
                 alts.append(alt)
             prods.append((a, alts))
-        return dict(n=n, prods=prods)
+        g = dict(n=n, prods=prods)
+        g['nt_types'] = [a for a, fl in nt_refs(g).items() if a != 0 and fl and all(fl) and rng.random() < 0.7]
+        return g
 
 
 NAMES = ['Start', 'Beta', 'Gamma']
@@ -93,10 +99,31 @@ def par_factor(f):
     return {'r': '{ %s }', 'o': '[ %s ]', 'g': '( %s )'}[f[0]] % inner
 
 
+def nt_refs(g):
+    """non-terminal index -> list of clipped flags of all its references"""
+    refs = {}
+    def walk(f):
+        if f[0] == 'n':
+            refs.setdefault(f[1], []).append(f[2])
+        elif f[0] in ('r', 'o', 'g'):
+            for alt in f[1]:
+                for x in alt:
+                    walk(x)
+    for _, alts in g['prods']:
+        for alt in alts:
+            for f in alt:
+                walk(f)
+    return refs
+
+
 def par_text(g, lalr):
     s = '%start Start\n'
     if lalr:
         s += "%grammar_type 'lalr(1)'\n"
+    # a user type on a non-terminal that is only ever referenced clipped needs no conversion code (its values are
+    # dropped), but the adapter must still pop them
+    for a in g.get('nt_types', []):
+        s += '%%nt_type %s = crate::MyUser\n' % NAMES[a]
     s += '%%\n'
     for a, alts in g['prods']:
         s += '%s: %s;\n' % (NAMES[a], ' | '.join(' '.join(par_factor(f) for f in alt) for alt in alts))
